@@ -79,7 +79,8 @@ KANI_META.update({
     'k_marg_errors': K('bounded', '9 concrete rejected axis lists (duplicates adjacent and not, out-of-range incl. usize::MAX, all axes) and 2 accepted ones on a 3-axis spectrum', ['Spectrum::marginalize (validation)']),
     'k_marg_2x3_a0': K('bounded', 'shape [2,3], axis 0', ['Spectrum::marginalize', 'marginalize_unchecked', 'marginalize_axis', 'Array::sum']),
     'k_marg_2x3_a1': K('bounded', 'shape [2,3], axis 1', ['Spectrum::marginalize', 'Array::sum']),
-    'k_marg_2x3x2_a1': K('bounded', 'shape [2,3,2], axis 1', ['Spectrum::marginalize']),
+    'k_marg_2x3x2_a1': K('bounded', 'shape [2,3,2], axis 1', ['Spectrum::marginalize', 'Array::sum']),
+    'k_marg_2x3x2_a0': K('bounded', 'shape [2,3,2], axis 0 (remaining axes of different lengths)', ['Spectrum::marginalize', 'Array::sum']),
     'k_marg_2x3x2_a20': K('bounded', 'shape [2,3,2], axes [2,0] (descending); Array::sum replaced by its contract (sum_by_definition)', ['Spectrum::marginalize', 'marginalize_unchecked', 'marginalize_axis']),
     'k_marg_2x3x2_a01': K('bounded', 'shape [2,3,2], axes [0,1] (adjacent); Array::sum by contract', ['Spectrum::marginalize']),
     'k_marg_2x2x1x2_a302': K('bounded', 'shape [2,2,1,2], axes [3,0,2] (neither ascending nor descending); Array::sum by contract', ['Spectrum::marginalize']),
@@ -143,7 +144,7 @@ REGISTRY = {
         'verus': ['v_view', 'v_axisiter'],
         'verus_pairs': {'v_view': ['k_view_axis_views_2x3x2'], 'v_axisiter': ['k_view_axis_views_2x3x2']},
         'kani_quick': ['k_marg_errors', 'k_marg_2x3_a0', 'k_marg_2x2x1x2_a302', 'k_view_axis_views_2x3x2'],
-        'kani_thorough': ['k_marg_2x3_a0', 'k_marg_2x3_a1', 'k_marg_2x3x2_a1', 'k_marg_2x3x2_a20', 'k_marg_2x3x2_a01', 'k_marg_2x2x1x2_a132', 'k_marg_2x3x1x2_a031'],
+        'kani_thorough': ['k_marg_2x3_a1', 'k_marg_2x3x2_a0', 'k_marg_2x3x2_a1', 'k_marg_2x3x2_a20', 'k_marg_2x3x2_a01', 'k_marg_2x2x1x2_a132', 'k_marg_2x3x1x2_a031'],
         'assumptions': [A_FLOATSUM, A_BIN, 'Array::sum / marginalize_unchecked (iterator adapters) are checked by Kani on the listed shapes only; in the multi-axis marginalize harnesses Array::sum is replaced by its contract (sum_by_definition), which the single-axis harnesses check against the real sum'],
         'not_decided': ['--marginalize-keep complement (View::run, bin crate)', 'create/marginalize relation on call sets'],
     },
